@@ -42,4 +42,13 @@ ProgramOutputOK(page, initialPc, programLen, outputStart, outputLen) ==
     /\ programLen <= Len(page) /\ outputLen <= Len(page)
     /\ \A i \in 1..programLen : page[i][1] = initialPc + i - 1
     /\ \A i \in 1..outputLen : page[Len(page) - outputLen + i][1] = outputStart + i - 1
+
+\* verify_public_input (the same in all seven layouts): the program is loaded at address 1 and its segment is the 4-cell
+\* bootstrap range [1, 5); the stack starts two cells after the program (program_end_pc = initial_fp - 2); no continuous
+\* pages; both ends of the execution segment below the address bound.  segs = [prog, exec, out : <<begin, stop>>]
+VerifyPIOK(page, segs, nHeaders, maxAddr) ==
+    /\ segs.exec[1] < maxAddr /\ segs.exec[2] < maxAddr
+    /\ nHeaders = 0
+    /\ segs.prog[1] = 1 /\ segs.prog[2] = 5
+    /\ ProgramOutputOK(page, segs.prog[1], segs.exec[1] - 2 - segs.prog[1], segs.out[1], segs.out[2] - segs.out[1])
 =============================================================================
